@@ -165,3 +165,35 @@ Lemma relative_literal dec u m sc mult : parse_dec dec = Some (m, sc) -> unit_na
 Proof.
   intros Hd Hu. cbn [parse_relative]. rewrite rev_app_distr. cbn [rev app]. rewrite Hu. rewrite rev_involutive, Hd. reflexivity.
 Qed.
+
+(* ------------------------------------------------------------------ am/pm in lower case *)
+(* what the retry does: when time.Parse refuses the matched text and the layout has PM, the answer is time.Parse of the
+   upper-cased text *)
+Lemma parse_one_retry now cf text m : rx_find (cf_rx cf) text = Some m -> go_parse (cf_elems cf) m = None ->
+  has_pm (cf_elems cf) = true ->
+  parse_one now cf text = match go_parse (cf_elems cf) (to_upper m) with
+                          | Some t => Some (instant (adjust now cf t))
+                          | None => None
+                          end.
+Proof.
+  intros Hr Hg Hp. unfold parse_one, parse_one_v, go_parse_retry. rewrite Hr, Hg, Hp. reflexivity.
+Qed.
+
+(* the variant without the retry is the variant with it wherever the first time.Parse succeeds (the self theorems) *)
+Lemma parse_all_v_code now fs text : forall i, parse_all_from_v code_ampm_retry i now fs text = parse_all_from i now fs text.
+Proof. induction fs as [|[cf|] fs IH]; intros i; cbn; try reflexivity. fold (parse_one now cf text). destruct (parse_one now cf text); [reflexivity|apply IH]. Qed.
+
+Definition w_pm : bytes := B "31/12/2019 11:59:59 pm job done".
+Lemma ampm_lower_witnesses :
+  (* the code: the 12-hour format answers, with the afternoon *)
+  parse_all w_now known_c w_pm = Some (11%nat, (1577836799, 0)) /\
+  parse_all w_now known_c (B "2019-03-11 02:34:55 pm") = Some (48%nat, (1552314895, 0)) /\
+  parse_all w_now known_c (B "Mar 11, 2019 2:34:55 pm x") = Some (0%nat, (1552314895, 0)) /\
+  parse_all w_now known_c (B "1/2/2019 3:04 am") = Some (13%nat, (1548990240, 0)) /\
+  nth_error known_formats 11 = Some (B "D/M/YYYY hh:mm:ss P") /\
+  (* without the retry: the 12-hour formats do not read it, a 24-hour / date-only format claims it with another instant *)
+  parse_all_v false w_now known_c w_pm = Some (15%nat, (1577793599, 0)) /\
+  nth_error known_formats 15 = Some (B "DD/MM/YYYY HH:mm:ss") /\
+  parse_all_v false w_now known_c (B "1/2/2019 3:04 am") = Some (34%nat, (1580515200, 0)) /\
+  parse_all_v false w_now known_c (B "Mar 11, 2019 2:34:55 pm x") = None.
+Proof. repeat split; vm_compute; reflexivity. Qed.
